@@ -657,6 +657,9 @@ func (in *Interp) intrinsic(fn *ssa.Function, args []Value) (Value, bool) {
 		recvT := fn.Signature.Recv().Type()
 		typ := recvT.String()
 		meth := fn.Name()
+		if k := strings.Index(meth, "["); k >= 0 {
+			meth = meth[:k]
+		}
 		cell := atomicCell(recvT, args[0].(Ptr))
 		in.maybeYield("atomic." + meth)
 		w.acquire(in.g, hbKey(cell))
@@ -1076,6 +1079,14 @@ func (in *Interp) zzvrt(fn *ssa.Function, args []Value) (Value, bool) {
 	case "CtrSet":
 		w.ctrs[string(args[0].(Str))] = sext(args[1].(BV).v, 64)
 		return nil, true
+	case "CellSet":
+		w.cells[string(args[0].(Str))] = args[1]
+		return nil, true
+	case "CellGet":
+		if v, ok := w.cells[string(args[0].(Str))]; ok {
+			return v, true
+		}
+		return cbv(64, 0), true
 	case "Trace":
 		w.tracef("harness: %s", string(args[0].(Str)))
 		return nil, true
